@@ -270,6 +270,12 @@ func (c *MustacheParser) completeLexicalAnalysis() error {
 					tokenValue = variable
 				}
 
+				// A comment tag: '{{! ... }}'
+				if operator1 == "!" {
+					tokenType = TokenComment
+					tokenValue = variable
+				}
+
 				if operator1 == "" {
 					tokenType = TokenVariable
 					if closingBracket == "}}}" {
